@@ -15,15 +15,19 @@ package syncer
 //   cur       offset at which the command being processed ends (start offset before the first)
 //   sentHigh  largest offset handed to the sender so far
 
+// ground facts about case folding (each is a closed instance of strings.EqualFold)
+//@ axiom brackets_are_not_publish_or_select: !rdbrestore.SpecEqualFold("multi", "publish") && !rdbrestore.SpecEqualFold("exec", "publish") && !rdbrestore.SpecEqualFold("multi", "select") && !rdbrestore.SpecEqualFold("exec", "select")
+
 //@ func RedisOutput.parseAofCommand
 //@   arith int
-//@   properties C07 C01
-//@   replay syncer_parseAofCommand
+//@   properties C07 C01 C09
+//@   nopanic
+//@   replay syncer_parseAofCommand syncer_dbFilterBrackets syncer_dbFilterExecDropped syncer_zeroArgPublish
 //@   ghost var pos mathint
 //@   ghost var unread mathint
 //@   ghost var cur mathint = startOffset
 //@   ghost var sentHigh mathint = startOffset
-//@   requires nonnil: ro != nil && reader != nil && ro.outFilter != nil
+//@   requires nonnil: ro != nil && reader != nil && ro.outFilter != nil && filter.filterWF(ro.outFilter)
 //@   modifies heap, pos, unread
 //@   set cur = startOffset + incrOffset after store incrOffset
 //@   assert at send sendBuf: command_end: sent.Offset == cur
@@ -31,9 +35,20 @@ package syncer
 //@   assert at send sendBuf: db_tag [C01]: sent.Cmd == "select" || sent.Db == currentDB
 //@   assert at send sendBuf: select_names_current_db [C01]: sent.Cmd == "select" && currentDB != 0 - 1 ==> sent.Db == currentDB
 //@   set sentHigh = sent.Offset after send sendBuf
+//   dropCause  why the command of this iteration is withheld: 0 nothing of its own (only the database
+//              it arrived in), 1 its command name is configured out, 2 its keys, 3 the tool's own bookkeeping
+//@   ghost var dropCause mathint = 0
+//@   set dropCause = 0 after store incrOffset
+//@   set dropCause = ite(ignoreCmd, 1, dropCause) after store ignoreCmd
+//@   set dropCause = ite(reject, 2, dropCause) after store reject
+//@   set dropCause = ite(result, 3, dropCause) after call touchesBisyncNamespace
+//@   assert at call filterCounterAdd: a_transaction_bracket_is_not_dropped_with_a_filtered_database [C01 C09]: (sCmd == "multi" || sCmd == "exec") && selectDB == 0 - 1 ==> dropCause != 0
 //@   loop 1:
 //@     invariant decoder: decoder != nil && decoder.r != nil && decoder.offset >= 0
 //@     invariant order: sentHigh <= cur && cur <= startOffset + decoder.offset
+//@     invariant filter: ro.outFilter != nil && filter.filterWF(ro.outFilter)
+//@   loop 2:
+//@     invariant index: 0 - 1 <= rangeindex
 
 // ---- frame / purity contracts of helpers used by the event loops -----------------------
 
